@@ -130,6 +130,25 @@ Definition build_debug_expr (name : string) (src : fields) (fs : list fentry) (u
       Ok (DbgFields name (shape_of src) (map fld_of used), push_fields used ub KDebug w)
   end.
 
+(** `may_be_unsized`: a `?Sized` bound is declared, or the type is `str`, a slice or a trait object *)
+Definition is_maybe_bound (b : tbound) : bool :=
+  match b with TBTrait true _ _ => true | _ => false end.
+Definition may_be_unsized (g : generics) (t : ty) : bool :=
+  match t with
+  | TySlice _ | TyDyn _ => true
+  | TyPath None false [Seg "str" SANone] => true
+  | _ => false
+  end
+  || existsb (fun p => match p with GPTy _ bs _ => existsb is_maybe_bound bs | _ => false end) (g_params g)
+  || existsb (fun w => match w with WPTy _ bs => existsb is_maybe_bound bs | _ => false end) (g_where g).
+
+(** the last field is passed as `&&self.x` when it may be unsized *)
+Definition last_double_ref (s : item_struct) (fs : list fentry) : option nat :=
+  match last_opt fs with
+  | Some f => if may_be_unsized (s_generics s) (f_ty (fe_field f)) then Some (fe_index f) else None
+  | None => None
+  end.
+
 Definition build_debug_for_struct (s : item_struct) (e : entry) (h : hattrs) (fs : list fentry)
   : result (list impl_ir) :=
   let k := KDebug in
@@ -138,7 +157,7 @@ Definition build_debug_for_struct (s : item_struct) (e : entry) (h : hattrs) (fs
   let '(w, ub) := entry_push_bounds_to_with e h k w in
   do (d, w) <- build_debug_expr (s_name s) (s_fields s) fs ub w;
   Ok [{| ir_hdr := mk_hdr false (s_generics s) k None false this w WFPlain;
-         ir_body := BDebugStruct d |}].
+         ir_body := BDebugStruct d (last_double_ref s fs) |}].
 
 Fixpoint debug_arms (vs : list ventry) (ub : bool) (w : wcb)
   : result (list (string * shape * list fld * debug_body) * wcb) :=
